@@ -340,7 +340,10 @@ def clause11_no_narrowing(ctx, P):
             if i.op != "store":
                 continue
             t = P.term(f, i.a[1])
-            if t[0] != "field" or t[2] in OWN_EXEMPT or not t[2].startswith("struct."):
+            if t[0] == "global":
+                # a counter kept in a global of its own (the routed-request counter): same rule
+                t = ("field", t, "global", t[1])
+            elif t[0] != "field" or t[2] in OWN_EXEMPT or not t[2].startswith("struct."):
                 continue
             n += 1
             o = i.a[0]
@@ -427,6 +430,39 @@ def clause12_valuestring(ctx, P):
         raise AnalysisBroken("uses of cJSON valuestring as a call argument: %d" % n)
 
 
+# printf-like functions: name -> index of the format argument
+FORMATTED = {"printf": 0, "fprintf": 1, "dprintf": 1, "sprintf": 1, "snprintf": 2, "vprintf": 0, "vfprintf": 1, "vsprintf": 1, "vsnprintf": 2,
+             "syslog": 1, "vsyslog": 1, "log_err": 0, "log_warn": 0, "log_info": 0, "log_peer_err": 1, "log_peer_info": 1}
+
+
+def clause13_format_strings(ctx, P):
+    """the format of every printf-like call in own code is a string literal - or the format parameter of a function that is itself
+    printf-like (the varargs wrappers), whose callers are held to the same rule.  Text that a peer can choose (its name, bytes of
+    its messages, payloads) is data, never a format: '%n' or '%s' in it would write to or read from wherever the stack points."""
+    n = 0
+    bad = None
+    for f in P.own_functions():
+        for c in f.all_insts():
+            if c.op != "call" or not c.callee:
+                continue
+            nm = P.srcname_of(c.callee)
+            k = FORMATTED.get(nm)
+            if k is None or k >= len(c.a):
+                continue
+            n += 1
+            t = P.strip(f, P.term(f, c.a[k]))
+            if t[0] == "str":
+                continue
+            if t[0] == "param" and FORMATTED.get(f.srcname) == t[1]:
+                continue
+            if bad is None:
+                bad = (f, c, nm, t)
+    ctx.ob("C06.10 R-TAINT", "own-code", "formats-are-literals", bad is None and n >= 100,
+           ("%s() calls %s() at %s with %s as the format: that is text assembled at run time (peer names, message bytes) - a '%%' in it "
+            "is interpreted (%%n writes, %%s reads through a stray pointer)" % (bad[0].srcname, bad[2], bad[1].loc, fmt_term(bad[3])[:60])) if bad else
+           "%d printf-like calls, every format a literal or a forwarded format parameter" % n)
+
+
 def clause9_unmask(ctx, P):
     """unmask_payload: the length arithmetic of the aligned fast path does not wrap: every unsigned subtraction outside the
     loops (bytes before the first aligned word, number of whole words, bytes after the last) is non-negative on every path,
@@ -474,10 +510,12 @@ def run(ctx):
         clause10_stack_arrays(ctx, P)
         clause11_no_narrowing(ctx, P)
         clause12_valuestring(ctx, P)
+        clause13_format_strings(ctx, P)
         clause1_snprintf(ctx, P)
         c16.clause6_slots(ctx, P, cg)
         c12.clause2_callbacks(ctx, P, cg)
         c09.clause1_parse(ctx, P)
+        c09.clause1b_parser_bounds(ctx, P, cg)
         clause5_fptoui(ctx, P)
         clause6_copies(ctx, P, cg)
         c08.clause5_origin(ctx, P)
